@@ -9,8 +9,8 @@ P = "c07_pad"
 def jobs(tier):
     q = tier == "quick"
     return [
-        Job(R, "flt-asan", "random", workers=W, cases=20000 if q else 60000, maxtime=150 if q else 600),
-        Job(P, "flt-asan", "random", workers=W, cases=6000 if q else 40000, maxtime=150 if q else 600),
+        Job(R, "flt-asan", "random", workers=W, cases=45000 if q else 120000, maxtime=150 if q else 600),
+        Job(P, "flt-asan", "random", workers=W, cases=12000 if q else 60000, maxtime=150 if q else 600),
     ] + ([] if q else [Job(R, "flt-fuzz", "fuzz", fuzz_jobs=8, fuzz_time=180),
                        Job(P, "flt-fuzz", "fuzz", fuzz_jobs=8, fuzz_time=90)])
 
